@@ -28,6 +28,7 @@ PROPS = {
             J("gf2p16", "C08_T_plusminus", bound="all 2^32 operand pairs"),
             J("gf2p16", "C08_mod_lemmas", bound="all integers 0 <= a,b < 65535 (integer theory)"),
             J("gf2p16", "C08_T_times", bound="all 2^32 operand pairs; tables abstracted to uninterpreted functions constrained by the instances of the homomorphism H and log-inverts-exp at the operands", must_reach=["nonzero"]),
+            J("gf2p16", "C08_ops_stateless", race=True, bound="two goroutines calling Times / Div / Inverse / Pow on symbolic operands: no memory cell written by one is touched by the other (the operations keep no package-level state)"),
             J("gf2p16", "C08_T_inverse", bound="all non-zero elements; same abstraction"),
             J("gf2p16", "C08_T_div", bound="all operand pairs with non-zero divisor; same abstraction", must_reach=["nonzero"]),
             J("gf2p16", "C08_T_pow", bound="all bases, all exponents 0..2^32-1; integer mode with no-overflow obligations on every operation"),
@@ -114,7 +115,7 @@ PROPS = {
         jobs=[
             J("par1", "C04_roundtrip", bound="1..3 files of 0..3 symbolic bytes (incl. an empty file next to non-empty ones), 1..2 volumes, every subset of data files deleted / overwritten, every subset of volumes deleted, double-check on/off", must_reach=["clean", "repairable", "unrepairable"]),
             J("par1", "C04_roundtrip_unicode", bound="a non-ASCII name and a name needing a UTF-16 surrogate pair, sizes 2 and 0, 2 volumes, every damage subset"),
-            J("par1", "C04_sixteenk", bound="one file of exactly 16384 / 16385 concrete bytes (the 16k-hash boundary), 1 volume, every damage of the C04 scenario incl. appended byte"),
+            J("par1", "C04_sixteenk", timeout=1500, args=["-max-steps", "2000000000"], bound="one file of exactly 16384 / 16385 / 65535 / 65536 concrete bytes (the 16k-hash boundary, a 64 KiB multiple), 1 volume, every damage of the C04 scenario incl. appended byte"),
             J("par1", "C04_max_volumes", bound="one 2-byte file with the maximum of 99 volumes: all found; any one of volumes 1, 50, 98, 99 alone repairs the lost file"),
             J("par1", "C04_max_shards", timeout=1500, args=["-max-steps", "600000000"], bound="157 (and 156) one-byte files with 99 volumes (256 resp. 255 shards): every volume found; the last volume alone repairs a lost file"),
         ],
@@ -133,7 +134,7 @@ PROPS = {
         assumptions=["the flag package runs as real SSA; FlagSet.PrintDefaults and fmt printing are no-ops; -cpuprofile (pprof, signal handler) is outside the claim",
                      "counterexamples of C20_main are replayed by building the par binary and running it on real files in a scratch directory"],
         jobs=[
-            J("cmd/par", "C20_main", replay="c20", no_native=True, bound="commands c/create/v/verify/r/repair in mixed case, bogus, none; index names s.par, s.par2, dir/s.par2, a.b.par2, a.b.par, d.x/s.par2, other / no extension, none; flags none, -g 2, an unknown flag before or after the command; 0..1 data files; library outcome nil / needed-but-impossible / other error; unusable and usable counts 0..2", must_reach=["usage", "verify", "repair"]),
+            J("cmd/par", "C20_main", replay="c20", no_native=True, bound="commands c/create/v/verify/r/repair in mixed case, bogus, none; index names s.par, s.par2, dir/s.par2, a.b.par2, a.b.par, d.x/s.par2, other / no extension, none; flags none, -g 2, an unknown flag before or after the command, a flag of the sub-command after the command word; 0..1 data files; library outcome nil / needed-but-impossible / other error; unusable and usable counts 0..2", must_reach=["usage", "verify", "repair"]),
             J("par2", "C01_repair_one", bound="1 file of 4/5/8 bytes, slice 4, 2 recovery blocks, goroutines 1..2, damage: intact, missing, one slice overwritten, 1..4 bytes inserted at the front, truncated at every length, 1..2 bytes appended, arbitrary content of length 0..len+1; double-check on/off", must_reach=["repaired"]),
             J("par2", "C20_par2_classify", bound="PAR2 library: every file missing and 0..1 of 1 recovery files left: Repair's error is classified as needed-but-impossible"),
         ],
@@ -150,6 +151,7 @@ PROPS = {
             J("par2", "C05_create_three", bound="3 files 5,4,3 bytes, 1/4/5 blocks (3 volume files), goroutines 1..2; all 6 id orders"),
             J("par2", "C05_create_names", bound="2..3 files whose names have different lengths (not multiples of 4, sub-directories, paths of 256 / 257 / 312 bytes), symbolic contents of 1..3 bytes (both id orders), 1 block"),
             J("par2", "C05_index_names", bound="index base names s, data, x2, a., par, set.v1, arp2.par2; 1 file of 3 symbolic bytes, 3 blocks: paths written, neighbouring file untouched, Verify finds every block"),
+            J("par2", "C05_big_packets", timeout=1500, args=["-max-steps", "600000000"], bound="packet bodies around 1 KiB: slice sizes 988 / 992 / 1000 / 2000; 48 / 49 / 50 slices; 61 / 62 / 63 files: packet MD5 of every packet written"),
             J("par2", "C05_sixteenk", bound="file lengths 16383, 16384, 16385"),
             J("par2", "C05_volume_layout", bound="1..40 recovery blocks"),
         ],
@@ -171,7 +173,7 @@ PROPS = {
         explanation="rolling CRC identity for listed window sizes (normal form) and the slice search of the real decoder on damaged files",
         assumptions=["window sizes not listed are outside the claim", "scenario contents: fixed distinct / fixed duplicate-slice contents with symbolic damage bytes"],
         jobs=[
-            J("par2", "C16_crc_window", bound="window sizes 4,8,12,16,20,32,64,252,256; all windows of n+1 symbolic bytes"),
+            J("par2", "C16_crc_window", bound="window sizes 4,8,12,16,20,32,36,64,68,252,256; all windows of n+1 symbolic bytes"),
             J("par2", "C16_crc_window_big", tier="thorough", bound="window sizes 24,28,100,128,256,512,1000,2000"),
             J("par2", "C16_locmap", must_reach=["hit"], bound="the real checksumShardLocationMap.put/get with 2..3 registered slices of 8 symbolic bytes, arbitrary (data-independent) 32-bit CRC values incl. equal CRCs with different content, one symbolic query window"),
             J("par2", "C16_search_arbitrary", bound="1 file of 4/5/8 bytes, slice 4; insertion of 1..4 bytes, truncation at every length, appended bytes, one overwritten slice"),
@@ -337,6 +339,8 @@ def replay_c20(cex, scratch, repo, goenv):
         argv += [cmd]
     if flag_kind == 3:
         argv += ["-nosuchflag"]
+    if flag_kind == 4 and lower is not None:
+        argv += {"create": ["-c", "2"], "verify": ["-a"], "repair": ["-doublecheck"]}[lower]
     if fname != "":
         argv += [fname]
         if ndata == 1:
